@@ -171,6 +171,7 @@ CHECKS["C10"] = dict(
                 "bucket, three callers, bypass header on/off: the protected version's bytes are still retrievable and unchanged.",
     harnesses=[
         dict(name="H10a-decision", pkgs=["./s3api"], entry="s3api.VfLockDecision", redirects="spec/redirects_ctrl.json", reach=["refused", "let-through"]),
+        dict(name="H10a-batch", pkgs=["./s3api"], entry="s3api.VfLockDecisionBatch", redirects="spec/redirects_ctrl.json", reach=["refused", "let-through"]),
         dict(name="H10b-routes", pkgs=["./s3api"], entry="s3api.VfLockRoutes", redirects="spec/redirects_ctrl_stub.json", reach=["returned", "destructive-call"],
              key_trace=['"route='], panic_ok=True),
         dict(name="H10c-lockstate", pkgs=["./backend/posix"], entry="backend/posix.VfLockState", redirects="spec/redirects_fs.json", reach=["settings-changed"],
@@ -216,6 +217,8 @@ CHECKS["C20"] = dict(
         dict(name="H20-nobody", pkgs=["./s3api"], entry="s3api.VfNoBodyStream", redirects="spec/redirects_auth.json", reach=["answered", "handler-entered"]),
         dict(name="H20-parsers", pkgs=["./backend"], entry="backend.VfCrashParsers", native=True, reach=["returned"]),
         dict(name="H20-chunk", pkgs=["./s3api/utils"], entry="s3api/utils.VfCrashChunk", redirects="spec/redirects.json", pkgname="utils", native=True, reach=["returned"]),
+        dict(name="H20-copy-source", pkgs=["./s3api"], entry="s3api.VfCopySourceNoCrash", redirects="spec/redirects_ctrl.json,spec/redirects_fs.json", reach=["answered"],
+             key_trace=['"copy source:']),
         dict(name="H20-signed-header", pkgs=["./s3api/utils"], entry="s3api/utils.VfCrashSignedHeader", redirects="spec/redirects.json", pkgname="utils", native=True, reach=["returned"]),
         dict(name="H20-posix-uploads", pkgs=["./backend/posix"], entry="backend/posix.VfPosixNoCrashUploads", redirects="spec/redirects_fs.json", reach=["returned"],
              key_trace=['"entry point:']),
